@@ -109,6 +109,9 @@ fn run_case(c: &Case) -> Result<Res, String> {
     let world = World::new(SutCfg { item_limit: c.limit, policy: Policy::None });
     let mut conn = world.conn();
     let mut exp_other: Vec<u8> = vec![];
+    // the key the oversized request names already holds an item: a refused request changes nothing
+    let old_item = Req::store(op::SET, b"big", b"old-value", 0x01d, 0, 0).opaque(0x98);
+    conn.exec(&old_item.bytes());
     if c.pregrown {
         conn.exec(&grow.bytes());
     }
@@ -122,6 +125,11 @@ fn run_case(c: &Case) -> Result<Res, String> {
     let exp_dump: Vec<(Vec<u8>, Vec<u8>)> = world.dump().into_iter().map(|d| (d.key, d.value)).collect();
     // ---- the real thing ----
     let w = net::NetWorld::new(NetCfg { item_limit: c.limit, ..Default::default() })?;
+    {
+        let mut p = w.connect()?;
+        p.step(&w, &old_item.bytes())?;
+        p.close(&w);
+    }
     let mut cl = w.connect()?;
     let mut chunks = 0u64;
     if c.pregrown {
